@@ -75,6 +75,7 @@ func (c12) Plan(tier string) []fw.Unit {
 		{Check: "C12", Kind: "mixed", Tier: tier, Spec: fw.Spec(enumSpec{})},
 		{Check: "C12", Kind: "where", Tier: tier, Spec: fw.Spec(enumSpec{})},
 		{Check: "C12", Kind: "seams", Tier: tier, Spec: fw.Spec(enumSpec{})},
+		{Check: "C12", Kind: "trigger-literal", Tier: tier, Spec: fw.Spec(enumSpec{})},
 	}
 }
 
@@ -123,6 +124,11 @@ func c12TypeClass(v c12Val) string {
 }
 
 func (c12) Run(u fw.Unit) fw.Result {
+	if u.Kind == "trigger-literal" {
+		// the shortcut shape and its parenthesised form share the pass that rewrites the predicate text: a reference
+		// decides here, not the other form
+		return triggerLiteralUnit("C12", "condition-trigger-literal")
+	}
 	sp := parseEnum(u)
 	a := newAcc("C12", "condition-"+u.Kind)
 	cmp := func(fast, general string, row Row, shape string, vdesc string, tclass string) {
